@@ -8,6 +8,7 @@ mod common;
 mod c20;
 mod parse;
 mod print;
+mod unordered;
 
 use common::Args;
 
@@ -24,6 +25,7 @@ fn main() {
         "c04" => (print::generate_layout, print::eval_c04),
         "c13" => (print::generate_layout, print::eval_c13),
         "c08" => (print::generate_c08, print::eval_c08),
+        "c15" => (unordered::generate, unordered::eval),
         other => {
             eprintln!("unknown family {other}");
             std::process::exit(2);
